@@ -91,7 +91,7 @@ func (h *hx) expr(e ast.Expr) string {
 		}
 	case *ast.BinaryExpr:
 		switch x.Op {
-		case token.LAND, token.LOR, token.EQL, token.NEQ, token.LSS, token.GTR, token.LEQ, token.GEQ:
+		case token.LAND, token.LOR, token.EQL, token.NEQ, token.LSS, token.GTR, token.LEQ, token.GEQ, token.ADD:
 			return "(.bin " + leanStr(x.Op.String()) + " " + h.expr(x.X) + " " + h.expr(x.Y) + ")"
 		}
 	case *ast.IndexExpr:
@@ -340,7 +340,7 @@ func genHandlers(outDir string) {
 	b.WriteString("]\n\n")
 
 	// functions
-	skip := map[string]bool{"multiSplit": true, "recursiveCheck": true, "in": true, "splitValues": true, "GetDefaultHandler": true}
+	skip := map[string]bool{"multiSplit": true, "recursiveCheck": true, "recursiveCheckFrom": true, "in": true, "splitValues": true, "GetDefaultHandler": true}
 	var names []string
 	hashes := map[string]string{}
 	for _, d := range f.Decls {
@@ -374,7 +374,7 @@ func genHandlers(outDir string) {
 	b.WriteString("def cssProgram : Program := { funcs := cssFuncs, regexes := cssRegexes }\n\n")
 	// helper pins
 	b.WriteString("/-- sha256 of the printed source of the four hand-modelled helpers -/\ndef helperHashes : List (String × String) := [\n")
-	hn := []string{"in", "multiSplit", "recursiveCheck", "splitValues", "GetDefaultHandler"}
+	hn := []string{"in", "multiSplit", "recursiveCheck", "recursiveCheckFrom", "splitValues", "GetDefaultHandler"}
 	for i, n := range hn {
 		fmt.Fprintf(&b, "  (%s, %s)", leanStr(n), leanStr(hashes[n]))
 		if i+1 < len(hn) {
